@@ -1,6 +1,11 @@
 """C11 - Formula-to-CNF conversions preserve meaning.
 
 Theorems: coq/theories/Properties/C11.v (about Logic/{Formula,Tseitin,Naive,Switching}.v).
+Totality: `C11_naive_total`, `C11_switching_total` - the model returns on every
+formula (the TypeError / IndexError defects of the real code were repaired in
+/repo commits 94d9e8e and 9837dd8 and the model follows the repairs), so any
+exception of the real converters is both a correspondence mismatch and a
+`raises:` violation of the search.
 Correspondence: the real `to_cnf_tseitin` / `to_cnf_naive` / `to_cnf_switching`
 (returned tree, returned fresh counter, `cnf_to_json` of the tree or the
 exception raised) and the passes `__eliminate_iff`, `__apply_demorgan`,
@@ -299,7 +304,8 @@ def rand_formula(rng, depth, nvars, pool):
 
 
 def rand_nnf(rng, depth, nvars):
-    """negations on leaves only, no If/Iff: the fragment on which naive/switching do not hit the sort defect"""
+    """negations on leaves only, no If/Iff: the input language of __distribute_ors_* (deeper And/Or nesting
+    than rand_formula reaches, many members per connective)"""
     if depth <= 0 or rng.random() < 0.25:
         v = rng.randint(1, nvars)
         v = -v if rng.random() < 0.2 else v
@@ -399,6 +405,38 @@ def check_property(which, f, nv):
     return None
 
 
+def naive_clauses(f, pos=True):
+    """number of clauses the textbook distribution (what to_cnf_naive does) produces for f (pos) / Not f
+    (not pos): generator-side size estimate, independent of the code under test"""
+    if isinstance(f, int):
+        return 1
+    t = f[0]
+    if t == "not":
+        return naive_clauses(f[1], not pos)
+    if t in ("and", "or"):
+        ks = [naive_clauses(x, pos) for x in f[1]]
+        if (t == "and") == pos:
+            return sum(ks)
+        n = 1
+        for k in ks:
+            n *= k
+        return n
+    p1, p0 = naive_clauses(f[1], True), naive_clauses(f[1], False)
+    q1, q0 = naive_clauses(f[2], True), naive_clauses(f[2], False)
+    if t == "if":
+        return p0 * q1 if pos else p1 + q0
+    return p1 * q0 + p0 * q1 if pos else (p0 + q1) * (p1 + q0)
+
+
+# to_cnf_naive is exponential by design (its docstring says so); formulas whose naive CNF would have more
+# clauses than this are run through to_cnf_tseitin and to_cnf_switching only
+NAIVE_CAP = 1500
+
+
+def convs(f):
+    return CONV if naive_clauses(f) <= NAIVE_CAP else ("tseitin", "switching")
+
+
 def default_nv(f, extra=0):
     return max([abs(z) for z in leaves(f)] + [0]) + 1 + extra
 
@@ -411,8 +449,8 @@ def run(ctx, res):
     quick = ctx.quick
     res.rule = ("random formulas (depth<=5, <=6 variables, shared subformulas drawn from a pool, negative leaves, empty "
                 "And/Or, nested same connectives, duplicate members) + random negation-normal formulas + all formulas "
-                "with <=%d nodes over the literals +-1..+-3; each run through to_cnf_tseitin, to_cnf_naive, "
-                "to_cnf_switching; a case is non-trivial if the formula has a connective; distinct by (formula, fresh)"
+                "with <=%d nodes over the literals +-1..+-3; each run through to_cnf_tseitin, to_cnf_naive (unless its "
+                "output would exceed 1500 clauses), to_cnf_switching; a case is non-trivial if the formula has a connective; distinct by (formula, fresh)"
                 % (3 if quick else 5))
 
     # ---- cases
@@ -437,21 +475,31 @@ def run(ctx, res):
               ("or", (("and", (1, 2)), ("and", (3, 4)), ("and", (5, 6)), -7)),
               ("iff", ("and", (1, 2)), ("and", (1, 2))), ("and", (("not", 1), ("not", 1), ("not", ("not", 1)))),
               ("if", ("or", (1, 2)), ("or", (1, 2))), ("not", ("if", 1, 2)), ("not", ("iff", 1, 2)),
-              ("not", ("and", (("and", (1, 2)), 3))), ("not", ("and", (("and", (1, 2)), ("or", (1, 3)))))]:
+              ("not", ("and", (("and", (1, 2)), 3))), ("not", ("and", (("and", (1, 2)), ("or", (1, 3))))),
+              # the inputs on which the conversions raised before /repo commits 94d9e8e, 9837dd8
+              ("not", ("or", (1, ("and", (2, 3))))), ("not", ("not", ("or", ()))), ("and", (("or", ()), 1)),
+              ("or", (("not", ("and", (1, 2))), ("not", ("or", (3, ("iff", 1, 2)))))),
+              # recursion depth of __distribute_ors_switching: many conjunctions in one disjunction,
+              # negative leaves (they sort before the compound members)
+              ("or", tuple(("and", (2 * i + 1, 2 * i + 2)) for i in range(9))),
+              ("or", (-1, -2, ("and", (3, 4)), ("and", (-5, 6)), ("and", (7, ("or", (8, ("and", (9, 10))))))))]:
         cases.append((f, default_nv(f)))
 
     # ---- correspondence: the three converters
     lines = []
-    for f, nv in cases:
-        for w in CONV:
+    pos = {}
+    for ci, (f, nv) in enumerate(cases):
+        for w in convs(f):
+            pos[(ci, w)] = len(lines)
             lines.append(sexp([Atom(w), to_wire(f), nv]))
+    res.extra["naive_skipped_as_exponential"] = sum(1 for f, nv in cases if len(convs(f)) < len(CONV))
     outs = ctx.model(lines)
     mism = []
     real_cache = {}
     i = 0
     stats = {}
     for f, nv in cases:
-        for w in CONV:
+        for w in convs(f):
             real = real_conv(w, f, nv)
             real_cache[(w, f, nv)] = real
             mod = parse_model_conv(w, outs[i])
@@ -468,9 +516,11 @@ def run(ctx, res):
                 mism.append((w, f, nv, real, mod))
         res.count((f, nv), nontrivial=not isinstance(f, int))
     res.extra["outcomes"] = {"%s:%s" % k: v for k, v in sorted(stats.items())}
-    res.sample({"formula": sexp(to_wire(cases[3][0])), "fresh": cases[3][1], "model_tseitin": outs[9][:300]})
-    res.sample({"formula": sexp(to_wire(cases[5][0])), "fresh": cases[5][1], "model_naive": outs[16][:300],
-                "model_switching": outs[17][:300]})
+    res.sample({"formula": sexp(to_wire(cases[3][0])), "fresh": cases[3][1],
+                "model_tseitin": outs[pos[(3, "tseitin")]][:300]})
+    res.sample({"formula": sexp(to_wire(cases[5][0])), "fresh": cases[5][1],
+                "model_naive": outs[pos[(5, "naive")]][:300] if (5, "naive") in pos else "(skipped)",
+                "model_switching": outs[pos[(5, "switching")]][:300]})
 
     # ---- correspondence: outside the calling convention (fresh counter not above the leaves); literal only
     off = []
@@ -478,12 +528,12 @@ def run(ctx, res):
         pool = []
         f = rand_formula(rng, rng.randint(1, 4), rng.randint(2, 6), pool)
         off.append((f, rng.randint(-1, max(abs(z) for z in leaves(f) or [1]))))
-    offl = [sexp([Atom(w), to_wire(f), nv]) for f, nv in off for w in CONV]
+    offl = [sexp([Atom(w), to_wire(f), nv]) for f, nv in off for w in convs(f)]
     offo = ctx.model(offl)
     i = 0
     off_broken = None
     for f, nv in off:
-        for w in CONV:
+        for w in convs(f):
             real = real_conv(w, f, nv)
             mod = parse_model_conv(w, offo[i])
             i += 1
@@ -573,7 +623,7 @@ def run(ctx, res):
         V = {abs(z) for z in leaves(f)}
         if len(V) > 6 or size(f) > (40 if quick else 60):
             continue
-        for w in CONV:
+        for w in convs(f):
             real = real_cache[(w, f, nv)]
             if w != "tseitin" and real[0] == "ok" and sum(len(c) if isinstance(c, list) else 1 for c in real[1][1:]) > 4000:
                 continue
@@ -602,7 +652,7 @@ def run(ctx, res):
 
     # cnf_to_json of a converter's own output can fail (top-level Not(v) is rejected): an observation about
     # cnf_to_json's input language, not a change of meaning
-    jfail = [(w, f, nv, real_cache[(w, f, nv)][3][1]) for f, nv in cases for w in CONV
+    jfail = [(w, f, nv, real_cache[(w, f, nv)][3][1]) for f, nv in cases for w in convs(f)
              if real_cache[(w, f, nv)][0] == "ok" and real_cache[(w, f, nv)][3][0] != "ok"]
     if jfail:
         w, f, nv, e = min(jfail, key=lambda x: (size(x[1]), repr(x[1])))
@@ -617,7 +667,7 @@ def run(ctx, res):
             "corr:logic", "model Logic/*.v and real logic.py disagree on %d cases, e.g. %s %s fresh=%s real=%s model=%s" % (
                 len(mism), m[0], sexp(to_wire(m[1])) if isinstance(m[1], (tuple, int)) else m[1], m[2],
                 repr(m[3])[:200], repr(m[4])[:200]),
-            {"layer": "logic", "theorems": ["C11_tseitin", "C11_naive", "C11_switching"], "first_mismatch": repr(m)[:1000]},
+            {"layer": "logic", "theorems": ["C11_tseitin", "C11_naive", "C11_naive_total", "C11_switching", "C11_switching_total"], "first_mismatch": repr(m)[:1000]},
             failing_input=False))
 
 
